@@ -24,6 +24,7 @@
 #include <potassco/aspif_text.h>
 #include <potassco/string_convert.h>
 #include <potassco/rule_utils.h>
+#include <algorithm>
 #include <cctype>
 #include <cstring>
 #include <ostream>
@@ -580,6 +581,7 @@ void AspifTextOutput::endStep() {
 /////////////////////////////////////////////////////////////////////////////////////////
 std::string TheoryAtomStringBuilder::toString(const TheoryData& td, const TheoryAtom& a) {
 	res_.clear();
+	open_.clear();
 	add('&').term(td, td.getTerm(a.term())).add('{');
 	const char* sep = "";
 	for (TheoryElement::iterator eIt = a.begin(), eEnd = a.end(); eIt != eEnd; ++eIt, sep = "; ") {
@@ -615,6 +617,8 @@ TheoryAtomStringBuilder& TheoryAtomStringBuilder::term(const TheoryData& data, c
 		case Theory_t::Number: add(Potassco::toString(t.number())); break;
 		case Theory_t::Symbol: add(t.symbol()); break;
 		case Theory_t::Compound: {
+			POTASSCO_REQUIRE(std::find(open_.begin(), open_.end(), t.begin()) == open_.end(), "cyclic theory term");
+			open_.push_back(t.begin());
 			if (!t.isFunction() || function(data, t)) {
 				const char* parens = Potassco::toString(t.isTuple() ? t.tuple() : Potassco::Tuple_t::Paren);
 				const char* sep = "";
@@ -624,6 +628,7 @@ TheoryAtomStringBuilder& TheoryAtomStringBuilder::term(const TheoryData& data, c
 				}
 				add(parens[1]);
 			}
+			open_.pop_back();
 		}
 	}
 	return *this;
